@@ -131,6 +131,22 @@ def builders(tier='quick', seed=0):
     # cutoff includes jumps between translation images of one site (they drop out of the q=0 rate matrix)
     add('p1-2D-AAB', lambda: _entry('p1-2D-AAB', C(np.array([[-0.0254, -0.8170], [0.5890, 0.1472]]),
                                                   [[np.array([0.5465, 0.2220]), np.array([0.0691, 0.3647])], [np.array([0.1994, 0.0439])]], chemistry=['A', 'B']), nshell=2))
+    # rotation-only (chiral) site symmetry: no mirror, no inversion, no perpendicular two-fold -- two states of one star need not be
+    # exchanged by any operation
+    def p6chiral():
+        th = np.pi / 3
+        Rr = np.array([[np.cos(th), -np.sin(th)], [np.sin(th), np.cos(th)]])
+        latt = np.array([[1, 0], [-0.5, np.sqrt(0.75)]]).T
+        x0 = latt @ np.array([0.31, 0.12])
+        B = [np.linalg.solve(latt, np.linalg.matrix_power(Rr, k) @ x0) for k in range(6)]
+        return _entry('p6-chiral-2D', C(latt, [[np.zeros(2)], B], chemistry=['A', 'B']), nshell=1)
+    add('p6-chiral-2D', p6chiral)
+
+    def P4chiral():
+        x, y, z = 0.23, 0.11, 0.37
+        B = [np.array(p) for p in ((x, y, z), (-y, x, z), (-x, -y, z), (y, -x, z))]
+        return _entry('P4-chiral', C(np.diag([1., 1., 1.2]), [[np.zeros(3)], B], chemistry=['A', 'B']), nshell=2)
+    add('P4-chiral', P4chiral)
     if tier == 'thorough':
         add('mono-P2/m', lambda: monoP2m(False))
         add('HCP-rotated', lambda: _entry('HCP-rotated', C(rot3() @ HEX * np.array([1, 1, 1.633 / 1.6]), [[np.array([1 / 3, 2 / 3, .25]), np.array([2 / 3, 1 / 3, .75])]], chemistry=['A'])))
